@@ -1987,6 +1987,28 @@ func (c *Cache) additionalAnswer(ctx context.Context, msg *dns.Msg) *dns.Msg {
 			lineage.inherit()
 			return msg
 		}
+		if respCname != nil && respCname.Rcode == dns.RcodeServerFailure {
+			// The alias target failed to resolve or to validate. Handing
+			// the client the alias alone — NOERROR, no address, AD still
+			// set on the validated CNAME — reads as "this name has no such
+			// record", a denial nothing authenticated. The failure of a
+			// response on the path is the answer to the whole question;
+			// its extended error, when it has one, says why.
+			do := false
+			if opt := msg.IsEdns0(); opt != nil {
+				do = opt.Do()
+			}
+			var out *dns.Msg
+			if ede := dnsutil.GetEDE(respCname); ede != nil {
+				out = dnsutil.SetRcodeWithEDE(msg, dns.RcodeServerFailure, do, ede.InfoCode, ede.ExtraText)
+			} else {
+				out = dnsutil.SetRcode(msg, dns.RcodeServerFailure, do)
+			}
+			if localErr := middleware.RequestLocalFailureForResponse(ctx, respCname); localErr != nil {
+				middleware.MarkRequestLocalFailureResponse(ctx, out, localErr)
+			}
+			return out
+		}
 		if respCname != nil {
 			if negative, ok := middleware.ValidatedNegativeProofForResponse(ctx, respCname); ok &&
 				negative.Proof != nil &&
